@@ -348,6 +348,16 @@ def cpp_program(enums, structs):
             for nm in e['enumerators']:
                 L.append('  std::printf("C %s %%lld %%d %%d\\n", (long long)%s::%s, (int)%s::IsCommand(%s::%s), (int)%s::IsResponse(%s::%s));'
                          % (nm, mt, nm, NS, mt, nm, NS, mt, nm))
+    # IsCommand / IsResponse also for values that are NOT enumerators: the neighbours of every enumerator and a few
+    # fixed ones (a fast-path range check must not misclassify them); printed as "(value)"
+    if any(e['qual'] == mt for e in enums):
+        e = next(e for e in enums if e['qual'] == mt)
+        L.append('  { const long long defined[] = {%s};' % ', '.join('(long long)%s::%s' % (mt, nm) for nm in e['enumerators']))
+        L.append('    const long long fixed[] = {1, 9999, 12999, 13999, 15000, 19999, 20000, 20001, 32768, 65534, 65535};')
+        L.append('    const int nd = sizeof defined / sizeof defined[0], nf = sizeof fixed / sizeof fixed[0];')
+        L.append('    for (int pass = 0; pass < nd * 2 + nf; ++pass) { long long v = pass < nd * 2 ? defined[pass / 2] + (pass % 2 ? 1 : -1) : fixed[pass - nd * 2];')
+        L.append('      if (v < 0 || v > 65535) continue; bool isdef = false; for (int i = 0; i < nd; ++i) if (defined[i] == v) isdef = true; if (isdef) continue;')
+        L.append('      std::printf("C (%%lld) %%lld %%d %%d\\n", v, v, (int)%s::IsCommand((%s)v), (int)%s::IsResponse((%s)v)); } }' % (NS, mt, NS, mt))
     for s in structs:
         L.append('  c03_pr<%s>::go("%s");' % (s['qual'], s['short']))
     L += ['  std::printf("END\\n");', '  return 0;', '}']
@@ -404,7 +414,9 @@ def cpp_values(enums, structs):
         elif f[0] == 'U':
             res['underlying'][f[1]] = [int(f[2]), int(f[3])]
         elif f[0] == 'C':
-            res['classification'].append([f[1], int(f[2]), int(f[3]), int(f[4])])
+            row = [f[1], int(f[2]), int(f[3]), int(f[4])]
+            if row not in res['classification']:
+                res['classification'].append(row)
         elif f[0] == 'M':
             res['messages'].append([f[1], int(f[2]), int(f[3])])
         elif f[0] == 'S':
@@ -419,8 +431,8 @@ def cpp_values(enums, structs):
 # Python side
 # ------------------------------------------------------------------------------------------------------------
 
-def py_tables():
-    p = subprocess.run([vf.PY, os.path.join(vf.VERIF, 'harness', 'py', 'c03_dump.py')], env=vf.IMPL_ENV, capture_output=True, text=True, timeout=300)
+def py_tables(extra_values=()):
+    p = subprocess.run([vf.PY, os.path.join(vf.VERIF, 'harness', 'py', 'c03_dump.py')], env=dict(vf.IMPL_ENV, C03_EXTRA_VALUES=json.dumps(sorted(set(extra_values)))), capture_output=True, text=True, timeout=300)
     if p.returncode != 0:
         err = '\n'.join(l for l in p.stderr.split('\n') if 'leap' not in l.lower() and 'gpstime' not in l.lower())
         raise Unrecognised('Python introspection failed:\n' + err[-3000:])
@@ -485,7 +497,7 @@ HEAD = 'From Coq Require Import ZArith List String.\nImport ListNotations.\nOpen
 def generate():
     enums, structs = scan_all()
     vals = cpp_values(enums, structs)
-    py = py_tables()
+    py = py_tables([v for n, v, c, r in vals['classification'] if n.startswith('(')])
     ex = load_exceptions()
     for e in enums:
         got = [m for m, _ in vals['enum_values'].get(e['short'], [])]
